@@ -163,6 +163,9 @@ func c21TextValues(texts []string, cap string) []float64 {
 	return out
 }
 
+// the exporter of the `expo` case in progress (it scrapes between observations)
+var c21Exporter *exporter.Exporter
+
 func c21Obs(b *datum.Buckets) string {
 	cs := c21Counts(b)
 	s := make([]string, len(cs))
@@ -240,10 +243,25 @@ func c21Run(r *runCtx, id string, f []string) {
 				return
 			}
 			for i, v := range obsOf[k] {
-				datum.GetBuckets(d).Observe(v, time.Unix(int64(i+1), 0))
+				// all observations of a label set carry one timestamp (log lines of one second), and the
+				// histogram is scraped in between: what is exported last is what was observed last
+				datum.GetBuckets(d).Observe(v, time.Unix(1700000000, 0))
+				if i == len(obsOf[k])/2 {
+					if e0, eerr := exporter.New(context.Background(), st, exporter.Hostname("h")); eerr == nil {
+						c21Exporter = e0
+					}
+				}
+				if c21Exporter != nil {
+					var mid bytes.Buffer
+					_ = c21Exporter.Write(&mid)
+				}
 			}
 		}
-		e, _ := exporter.New(context.Background(), st, exporter.Hostname("h"))
+		e := c21Exporter
+		c21Exporter = nil
+		if e == nil {
+			e, _ = exporter.New(context.Background(), st, exporter.Hostname("h"))
+		}
 		var buf bytes.Buffer
 		if werr := e.Write(&buf); werr != nil {
 			r.obs(id, "ERR")
